@@ -278,3 +278,9 @@ var ZZHarnesses = map[string]func(){
 	"ZZC10One": ZZC10One,
 	"ZZC10Two": ZZC10Two,
 }
+
+// ZZIsNumeral: a is an RFC 8259 numeral (exponent magnitude at most maxexp) - for harnesses of other packages.
+func ZZIsNumeral(a []byte, maxexp int) bool {
+	_, ok := zzParseNumeral(a, maxexp)
+	return ok
+}
